@@ -31,6 +31,10 @@ pub struct RingMonitor {
     disagreement: String,
     /// Never raise violations; only used to end a run (C01).
     silent: bool,
+    /// Agreement counts only once everything that was in flight at the population change (one
+    /// telegram of maximum length, delivered in RX chunks, consumed a poll later) has been seen.
+    settle: u64,
+    settle_from: u64,
 }
 
 impl RingMonitor {
@@ -51,6 +55,8 @@ impl RingMonitor {
             recovery,
             disagreement: String::new(),
             silent: false,
+            settle: 256 * 11 * crate::bus::BIT + 2 * w.stations.iter().map(|s| w.us(s.cfg.p_max_us + s.cfg.rx_chunk_us)).max().unwrap_or(0),
+            settle_from: w.us(quiet_from_us),
         }
     }
 
@@ -195,6 +201,7 @@ impl Monitor for RingMonitor {
             self.member[st] = true;
             self.phase = Phase::Converging;
             self.converged_at = None;
+            self.settle_from = w.now;
         }
         if matches!(ev, StationEv::Offline | StationEv::Crash) && matches!(self.phase, Phase::Converging | Phase::Stable) {
             self.member[st] = false;
@@ -273,7 +280,7 @@ impl Monitor for RingMonitor {
                     self.phase = Phase::Done;
                     return;
                 }
-                if self.all_agree(w) {
+                if w.now >= self.settle_from + self.settle && self.all_agree(w) {
                     self.converged_at = Some(w.now);
                     self.phase = Phase::Stable;
                     self.last_token_da = None;
